@@ -163,7 +163,7 @@ func TestC02(t *testing.T) {
 		"signed and unsigned) damaged by every single-bit flip, byte substitutions and multi-byte damage, followed by a pristine sentinel, fed to frame.Reader with the dialect: " +
 		"every delivered decoded message must be justified by a reference-valid frame somewhere in the stream; (4) every undamaged frame must be delivered. " +
 		"distinct = distinct (state,byte) pairs + distinct input streams")
-	rep.RuleAdd("Also: v2 payloads longer than the local definition with the correct checksum (delivered) and with the checksum of the known part only (not delivered); a long-lived reader whose dialect is replaced / re-initialised in place; twin dialects; nodes re-initialised with a changed dialect.")
+	rep.RuleAdd("Also: v2 payloads longer than the local definition with the correct checksum (delivered) and with the checksum of the known part only (not delivered); a long-lived reader whose dialect is replaced / re-initialised in place; twin dialects; nodes re-initialised with a changed dialect. Zero-padded frames carrying the checksum of the frame they were made from.")
 	rep.Assume("bitwise reference CRC anchored by the CRC-16/MCRF4XX check value 0x6F91")
 	rep.Assume("CRC collisions (damage that yields another reference-valid frame) are counted, not flagged")
 	seed := vh.Seed()
